@@ -26,7 +26,11 @@ LayE == <<Assign("z", StrL("lay"), 1), Reserve("set", 1), H("|"), P(Var("z")), H
 PagesE == {<<InsertB("set", <<Assign("z", StrL("page"), 1), H("s")>>, 1)>>,
            <<InsertB("set", <<Assign("z", StrL("page"), 1)>>, 1), InsertB("use", <<H("u:"), P(Var("z"))>>, 1)>>,
            <<InsertB("use", <<P(Var("z")), Assign("w", IntL(1), 1)>>, 1), InsertB("inner", <<Assign("z", StrL("in"), 1), P(Var("w"))>>, 1)>>,
-           <<InsertE("use", Var("z"), 1), InsertB("set", <<Assign("fresh", IntL(3), 1)>>, 1), InsertB("inner", <<P(Var("fresh"))>>, 1)>>}
+           <<InsertE("use", Var("z"), 1), InsertB("set", <<Assign("fresh", IntL(3), 1)>>, 1), InsertB("inner", <<P(Var("fresh"))>>, 1)>>,
+           \* an insert body is evaluated once, where its reserve stands: what it adds to a name it reads is added once
+           <<InsertB("set", <<Assign("z", Bin("+", Var("z"), StrL("+")), 1), H("s"), P(Var("z"))>>, 1), InsertB("use", <<Assign("z", Bin("+", Var("z"), StrL("u")), 1), P(Var("z"))>>, 1),
+             InsertB("inner", <<Assign("z", Bin("+", Var("z"), StrL("i")), 1)>>, 1)>>,
+           <<InsertB("set", <<Assign("n", IntL(0), 1)>>, 1), InsertB("use", <<Assign("n", Bin("+", Var("n"), IntL(1)), 1), H("x"), P(Var("n"))>>, 1), InsertB("inner", <<P(Var("n"))>>, 1)>>}
 \* contents an insert may have for reserve r
 InsForms(r) == {InsertE(r, Tern(Var("show"), StrL("yes-" \o r), StrL("no")), 1), InsertE(r, Tern(BoolL(FALSE), IntL(1), Bin("+", Var("t"), StrL("?"))), 1),   \* a ternary as the value
                 InsertE(r, IntL(0), 1), InsertE(r, BoolL(FALSE), 1), InsertE(r, FloatL(0, 0), 1), InsertE(r, StrL(""), 1), InsertE(r, NilL, 1),   \* falsy values are values
@@ -191,6 +195,9 @@ Pages07 == {<<H("A:"), u1, H(" B:"), u2>> : u1 \in Uses, u2 \in Uses}
             <<Each("x", Var("xs"), <<Comp(Alias("def"), <<>>, <<Sl("", <<P(Bin("+", StrL("s:"), Var("x")))>>)>>, 1),
                                      Comp(Alias("deep"), <<Arg("n", Bin("+", Dot(Var("loop"), "iter"), IntL(0))), Arg("user", ObjL(<<[key |-> "name", ex |-> Bin("+", StrL("u"), Var("x"))]>>)),
                                                            Arg("list", ArrL(<<ObjL(<<[key |-> "a", ex |-> Bin("+", IntL(1), Dot(Var("loop"), "index"))]>>)>>))>>, <<>>, 1)>>, NoElse, 1)>>}
+      \* a use in the @else body of a loop (and in every other block position of a loop / chain)
+      \cup {<<Each("x", ArrL(<<>>), <<H("never")>>, <<H("e:"), u>>, 1), For(Assign("i", IntL(5), 1), Bin("<", Var("i"), IntL(2)), Post("++", Var("i")), <<H("never")>>, <<u, H(".")>>, 1),
+              If(<<Br(IntL(0), <<H("no")>>), Br(Var("yes"), <<u>>)>>, <<H("no")>>, 1)>> : u \in Uses}
       \* white space between a use and the next {{ }} or directive is text of the page like any other (C05)
       \cup {<<H("["), u, H(" "), P(Var("who")), H("]")>> : u \in Uses}
       \cup {<<u, H("\n  "), If(<<Br(Var("yes"), <<H("y")>>)>>, NoElse, 1), H(" "), u>> : u \in Uses}
@@ -215,6 +222,9 @@ Bad07 == {[tree |-> Tree07(<<H("x"), u>>), page |-> "home", d |-> Data07, tags |
                           <<Comp(Alias("def"), <<>>, <<Sl("", <<H("a")>>), Sl("", <<H("b")>>)>>, 1), "slot-twice">>,
                           <<Comp(Alias("named"), <<>>, <<Sl("head", <<H("a")>>), Sl("foot", <<H("f")>>), Sl("head", <<H("b")>>)>>, 1), "slot-twice">>,
                           <<Comp(Alias("ghost"), <<>>, <<>>, 1), "missing-component">>,
+                          <<Each("x", Var("xs"), <<H("p")>>, <<Comp(Alias("ghost"), <<>>, <<>>, 1)>>, 1), "missing-component">>,
+                          <<Each("x", Var("xs"), <<H("p")>>, <<Comp(Alias("def"), <<>>, <<Sl("x", <<H("s")>>)>>, 1)>>, 1), "undeclared-slot">>,
+                          <<For(Assign("i", IntL(0), 1), Bin("<", Var("i"), IntL(1)), Post("++", Var("i")), <<H("p")>>, <<Comp(Alias("def"), <<>>, <<Sl("", <<>>), Sl("", <<>>)>>, 1)>>, 1), "slot-twice">>,
                           <<Comp(Ref("components/ghost"), <<Arg("a", IntL(1))>>, <<>>, 1), "missing-component">>}}
 
 (* ---------------- C10 in trees: a literal passed as insert or component argument is escaped ---------------- *)
@@ -272,7 +282,14 @@ Vanish04 == \* the argument name is unknown after the use (reading it is an erro
 \* 'loop' as an argument name: refused like every other way of binding that name (outside and inside a loop)
 LoopArg04 == {<<H("a"), Comp(Alias("plain"), <<Arg("loop", v)>>, <<>>, 1), H("z")>> : v \in {IntL(4), ObjL(<<>>), StrL("s")}}
              \cup {<<Each("x", Var("xs"), <<Comp(Alias("plain"), <<Arg("name", Var("x")), Arg("loop", v)>>, <<>>, 1)>>, NoElse, 1)>> : v \in {IntL(4), Var("loop")}}
-Good04 == {[tree |-> Tree07(pb), page |-> "home", d |-> Data07, tags |-> <<"c04", "component-arguments">>] : pb \in Vanish04 \cup LoopArg04}
+\* "visible ... in blocks nested inside it": a component used inside a block sees that block's names (loop variables, the
+\* loop object, names assigned in an @if branch) without receiving them as arguments
+Visible04 == {<<Each("x", Var("xs"), <<Comp(Alias("echo"), <<>>, <<>>, 1)>>, NoElse, 1)>>,
+              <<If(<<Br(Var("yes"), <<Assign("name", StrL("loc"), 1), Comp(Alias("plain"), <<>>, <<>>, 1)>>)>>, NoElse, 1)>>,
+              <<For(Assign("name", IntL(0), 1), Bin("<", Var("name"), IntL(2)), Post("++", Var("name")), <<Comp(Alias("plain"), <<>>, <<>>, 1)>>, NoElse, 1)>>,
+              <<Each("x", Var("xs"), <<If(<<Br(Var("yes"), <<Assign("name", Bin("+", Var("x"), StrL("!")), 1), Comp(Alias("def"), <<>>, <<Sl("", <<Comp(Alias("plain"), <<>>, <<>>, 1)>>)>>, 1)>>)>>, NoElse, 1)>>, NoElse, 1)>>,
+              <<Assign("name", StrL("top"), 1), Comp(Alias("plain"), <<>>, <<>>, 1), Comp(Alias("plain"), <<Arg("z", IntL(1))>>, <<>>, 1)>>}
+Good04 == {[tree |-> Tree07(pb), page |-> "home", d |-> Data07, tags |-> <<"c04", "component-arguments">>] : pb \in Vanish04 \cup LoopArg04 \cup Visible04}
 
 (* ---------- C18: template names that themselves end in the extension (file layouts/base.tw.tw is the template layouts/base.tw) ---------- *)
 Dotted18 ==
